@@ -234,7 +234,7 @@ theorem decode_encode_chunked {bnd : Bytes} (hb : Multipart.BoundaryOk bnd) (par
         Multipart.partsOf (Multipart.decodeChunks bnd none none chunks).events =
           parts.map Multipart.decodedPart) :=
   ⟨Multipart.encBody .crlf bnd Multipart.stdEp parts, Multipart.encodeAll_eq parts hv,
-    fun hj => Multipart.decode_chunks_full_lemma (nl := .crlf) (ep := Multipart.stdEp) hb (Multipart.preOk_trivial .crlf bnd) parts hv chunks
+    fun hj => Multipart.decode_chunks_full_lemma (nl := .crlf) (ep := Multipart.stdEp) hb parts (Multipart.preFree_trivial .crlf bnd _ parts) hv chunks
       (by rw [hj]; simp [Multipart.bodyOf])⟩
 
 /-- **decode_encode_events** (F02a, repaired by d57c0c6). The payload of a part may reach the encoder
@@ -253,7 +253,7 @@ theorem decode_encode_events {bnd : Bytes} (hb : Multipart.BoundaryOk bnd)
         Multipart.partsOf (Multipart.decodeChunks bnd none none chunks).events =
           (cs.map (·.1)).map Multipart.decodedPart) := by
   refine ⟨Multipart.encBody .crlf bnd Multipart.stdEp (cs.map (·.1)), Multipart.encodeEvents_chunked cs hv, fun hj => ?_⟩
-  exact Multipart.decode_chunks_full_lemma (nl := .crlf) (ep := Multipart.stdEp) hb (Multipart.preOk_trivial .crlf bnd) _
+  exact Multipart.decode_chunks_full_lemma (nl := .crlf) (ep := Multipart.stdEp) hb _ (Multipart.preFree_trivial .crlf bnd _ _)
     (by intro p hp; rcases List.mem_map.1 hp with ⟨c, hc, rfl⟩; exact (hv c hc).1) chunks
     (by rw [hj]; simp [Multipart.bodyOf])
 
